@@ -75,6 +75,18 @@ def handle : List Sexp → String
             else if ds.eraseDups.length != ds.length then some s!"type-{n}-derives-a-trait-twice"
             else none
           | _ => none) ++
+        -- the derive *set* of every type: what the annotations list plus what rasn needs, and the `Copy` the
+        -- generator itself grants the type under the default configuration — nothing lost, nothing invented
+        (d.items.filterMap fun
+          | .ty n dds _ _ _ _ =>
+            match o.items.find? (fun | .ty n' _ _ _ _ _ => n' == n | _ => false) with
+            | some (.ty _ ods _ _ _ _) =>
+              let want := (mergeAnnotations c.annotations).1 ++ (if dds.contains "Copy" then ["Copy"] else [])
+              if !(want.all ods.contains) then some s!"type-{n}-lost-derive-{",".intercalate (want.filter fun x => !ods.contains x)}"
+              else if !(ods.all want.contains) then some s!"type-{n}-derives-unlisted-{",".intercalate (ods.filter fun x => !want.contains x)}"
+              else none
+            | _ => none
+          | _ => none) ++
         (d.items.filterMap fun
           | .ty n _ _ _ true alts =>
             let expect := sortStrings ((alts.filter fun a => alts.countP (fun b => b.2 == a.2) == 1).map fun a => s!"{a.1}:{a.2}")
